@@ -24,6 +24,7 @@ import (
 
 	"github.com/cometbft/cometbft/types"
 	"github.com/ipfs/go-datastore"
+	contextds "github.com/ipfs/go-datastore/context"
 	dssync "github.com/ipfs/go-datastore/sync"
 
 	libhead "github.com/celestiaorg/go-header"
@@ -75,6 +76,36 @@ type hstore struct {
 	cycleBegan chan struct{} // signalled by a Tail() call the driver did not make itself: prune() took the lock
 	odGate     chan struct{} // a GetByHeight made under a header deletion waits here
 	odAtGate   chan struct{}
+
+	// scripted read failures (environment action of Pruner.tla). Every read also honours its context, as a
+	// disk-backed store does: after Stop cancelled the service context, reads made with it fail.
+	rs readScript
+}
+
+// readScript says which reads of the next cycle / header deletion fail. The phases of prune() are told apart
+// by what the calls look like: lastPruned() and retryFailed() read with the service context, the finder with
+// a context that carries the write batch of the cycle.
+type readScript struct {
+	failTail   bool            // hstore.Tail of lastPruned()
+	expectLast bool            // tail < LastPrunedHeight: lastPruned() reads that header first
+	failLast   bool            //   ... and that read fails
+	retryFail  map[uint64]bool // GetByHeight of retryFailed() for these heights
+	failFind   int             // j > 0: the first read (Head) of the j-th findPruneableHeaders call fails
+	odFail     bool            // GetByHeight of pruneOnHeaderDelete fails
+
+	lastSeen  bool
+	findHeads int
+	injected  int
+}
+
+var errRead = errors.New("verif: scripted header-store read failure")
+
+func (s *hstore) setScript(rs readScript) { s.mu.Lock(); s.rs = rs; s.mu.Unlock() }
+func (s *hstore) scriptInjected() int    { s.mu.Lock(); defer s.mu.Unlock(); return s.rs.injected }
+
+func inFinder(ctx context.Context) bool {
+	_, ok := contextds.GetWrite(ctx)
+	return ok
 }
 
 var _ libhead.Store[*header.ExtendedHeader] = (*hstore)(nil)
@@ -83,9 +114,19 @@ func newHStore() *hstore {
 	return &hstore{headers: map[uint64]*header.ExtendedHeader{}, cycleBegan: make(chan struct{}, 1)}
 }
 
-func (s *hstore) Head(context.Context, ...libhead.HeadOption[*header.ExtendedHeader]) (*header.ExtendedHeader, error) {
+func (s *hstore) Head(ctx context.Context, _ ...libhead.HeadOption[*header.ExtendedHeader]) (*header.ExtendedHeader, error) {
+	if err := ctx.Err(); err != nil {
+		return nil, err
+	}
 	s.mu.Lock()
 	defer s.mu.Unlock()
+	if tagOf(ctx) == "" && inFinder(ctx) {
+		s.rs.findHeads++
+		if j := s.rs.failFind; j > 0 && s.rs.findHeads == 2*j-1 {
+			s.rs.injected++
+			return nil, errRead
+		}
+	}
 	h, ok := s.headers[s.head]
 	if !ok {
 		return nil, libhead.ErrNotFound
@@ -100,8 +141,16 @@ func (s *hstore) Tail(ctx context.Context) (*header.ExtendedHeader, error) {
 		default:
 		}
 	}
+	if err := ctx.Err(); err != nil {
+		return nil, err
+	}
 	s.mu.Lock()
 	defer s.mu.Unlock()
+	if tagOf(ctx) == "" && s.rs.failTail {
+		s.rs.failTail = false
+		s.rs.injected++
+		return nil, errRead
+	}
 	h, ok := s.headers[s.tail]
 	if !ok {
 		return nil, libhead.ErrNotFound
@@ -130,8 +179,31 @@ func (s *hstore) GetByHeight(ctx context.Context, height uint64) (*header.Extend
 			<-gate
 		}
 	}
+	if err := ctx.Err(); err != nil {
+		return nil, err
+	}
 	s.mu.Lock()
 	defer s.mu.Unlock()
+	switch {
+	case tagOf(ctx) == "od":
+		if s.rs.odFail {
+			s.rs.odFail = false
+			s.rs.injected++
+			return nil, errRead
+		}
+	case tagOf(ctx) == "" && !inFinder(ctx):
+		if s.rs.expectLast && !s.rs.lastSeen { // lastPruned(): GetByHeight(LastPrunedHeight)
+			s.rs.lastSeen = true
+			if s.rs.failLast {
+				s.rs.injected++
+				return nil, errRead
+			}
+		} else if s.rs.retryFail[height] { // retryFailed()
+			delete(s.rs.retryFail, height)
+			s.rs.injected++
+			return nil, errRead
+		}
+	}
 	h, ok := s.headers[height]
 	if !ok {
 		return nil, libhead.ErrNotFound
@@ -143,7 +215,10 @@ func (s *hstore) GetRangeByHeight(ctx context.Context, from *header.ExtendedHead
 	return s.GetRange(ctx, from.Height()+1, to)
 }
 
-func (s *hstore) GetRange(_ context.Context, from, to uint64) ([]*header.ExtendedHeader, error) {
+func (s *hstore) GetRange(ctx context.Context, from, to uint64) ([]*header.ExtendedHeader, error) {
+	if err := ctx.Err(); err != nil {
+		return nil, err
+	}
 	s.mu.Lock()
 	defer s.mu.Unlock()
 	if to <= from {
@@ -258,6 +333,7 @@ type call struct {
 	OK       bool   `json:"ok"`
 	Tag      string `json:"tag"` // "" cycle, "od" header deletion
 	Scripted bool   `json:"scripted"`
+	Canceled bool   `json:"canceled,omitempty"` // the context of the call was cancelled (Stop): not a scripted outcome
 }
 
 type stubPruner struct {
@@ -272,12 +348,41 @@ type stubPruner struct {
 	// set): the driver uses it to let the header store grow between two batches of one cycle
 	afterCall func(k int)
 	sinceHook int
+	// stopAt > 0: during the stopAt-th call (counted like afterCall) the node is stopped: onStop is run (it
+	// calls Service.Stop in the background) and the call waits until the context it was given is cancelled.
+	stopAt int
+	onStop func()
 }
 
 var errScripted = errors.New("verif: scripted prune failure")
 
 func (p *stubPruner) Prune(ctx context.Context, eh *header.ExtendedHeader) error {
 	h := eh.Height()
+	p.mu.Lock()
+	p.sinceHook++
+	nth := p.sinceHook
+	hook, stopAt, onStop := p.afterCall, p.stopAt, p.onStop
+	p.mu.Unlock()
+	if stopAt > 0 && nth == stopAt && onStop != nil {
+		onStop()
+		select {
+		case <-ctx.Done():
+		case <-time.After(30 * time.Second):
+		}
+	}
+	mk := func(ok, scripted, canceled bool) call {
+		return call{H: h, HdrTime: int64(eh.Time().Sub(base) / unit), HeadTime: int64(p.st.headTime().Sub(base) / unit),
+			OK: ok, Tag: tagOf(ctx), Scripted: scripted, Canceled: canceled}
+	}
+	if ctx.Err() != nil { // a pruner that honours its context; no scripted outcome is consumed
+		p.mu.Lock()
+		if len(p.calls) < 200000 {
+			p.calls = append(p.calls, mk(false, true, true))
+		}
+		p.mu.Unlock()
+		p.n.Add(1)
+		return ctx.Err()
+	}
 	p.mu.Lock()
 	k := p.count[h]
 	p.count[h]++
@@ -287,14 +392,9 @@ func (p *stubPruner) Prune(ctx context.Context, eh *header.ExtendedHeader) error
 	} else if len(s) > 0 {
 		ok = s[len(s)-1] // a height that failed last keeps failing: permanent failure
 	}
-	c := call{H: h, HdrTime: int64(eh.Time().Sub(base) / unit), HeadTime: int64(p.st.headTime().Sub(base) / unit),
-		OK: ok, Tag: tagOf(ctx), Scripted: scripted}
 	if len(p.calls) < 200000 {
-		p.calls = append(p.calls, c)
+		p.calls = append(p.calls, mk(ok, scripted, false))
 	}
-	hook := p.afterCall
-	p.sinceHook++
-	nth := p.sinceHook
 	p.mu.Unlock()
 	p.n.Add(1)
 	if hook != nil {
@@ -337,6 +437,8 @@ type rec struct {
 	Pc      string   `json:"pc"`
 	Time    []int    `json:"time"`
 	T       *int     `json:"t"` // Head: timestamp of the new header (lazy chain)
+	K       string   `json:"k"`  // CycleAbort: which read of lastPruned() fails ("tail" | "last")
+	RF      bool     `json:"rf"` // RetrySkip / ODEnd: the header could not be read (injected failure)
 	W       int      `json:"W"`
 	B       int      `json:"B"`
 	M       int      `json:"M"`
@@ -392,6 +494,7 @@ const (
 	sigTailSkip  = "C14/all-old-pruned/tail-clamp-skips-unpruned-tail"
 	sigOldLeft   = "C14/all-old-pruned/old-block-neither-pruned-nor-failed"
 	sigNoRetry   = "C14/failed/not-retried-by-later-cycle"
+	sigDropped   = "C14/failed/height-dropped-without-being-pruned"
 	sigArchival  = "C14/archival/prune-damaged-ods"
 	sigPrunedFx  = "C14/store-effect/pruned-mode-left-data-or-touched-window"
 )
@@ -589,6 +692,49 @@ func (r *replayer) runCycle(viaStart bool, expectCalls int) (cs []call, finished
 	}
 }
 
+// monitor FailedKept: "... or is recorded as failed and retried" -- a height leaves the failed set only because
+// a Prune call for it succeeded, because its header is gone from the store (out of the pruner's reach), because
+// a header deletion is about to prune it (exempt), or by ResetCheckpoint; in particular not because the header
+// store failed a read or the node was stopped.
+func (r *replayer) monitorFailedKept(prev map[int]bool, now []int, cs []call, exempt int, where string) {
+	in := map[int]bool{}
+	for _, f := range now {
+		in[f] = true
+	}
+	ok := map[int]bool{}
+	for _, c := range cs {
+		if c.OK {
+			ok[int(c.H)] = true
+		}
+	}
+	tail := int(r.st.TailHeight())
+	for f := range prev {
+		if in[f] || ok[f] || f < tail || f == exempt {
+			continue
+		}
+		r.rep.Violate(sigDropped, fmt.Sprintf("height %d was recorded as failed, no Prune call for it succeeded, its header is still in the "+
+			"store (tail %d), and after %s it is no longer in the failed set (now %v): it will never be retried", f, tail, where, now),
+			r.replayObj(map[string]any{"height": f, "failed_before": keys(prev), "failed_after": now}))
+	}
+}
+
+func keys(m map[int]bool) []int {
+	out := []int{}
+	for k := range m {
+		out = append(out, k)
+	}
+	sort.Ints(out)
+	return out
+}
+
+func setOf(a []int) map[int]bool {
+	m := map[int]bool{}
+	for _, x := range a {
+		m[x] = true
+	}
+	return m
+}
+
 // patience: "within a bounded number of terminating cycles" -- the bound used by the monitors. The code (and
 // the model) need one cycle; an implementation that handled a single header per cycle would still need no
 // more cycles than there are headers. A block is reported only after it has been owed for more than that.
@@ -680,6 +826,30 @@ func (r *replayer) soak() {
 	}
 }
 
+// restartAfterStop: a new process -- a new Service over the same datastore and header store. On odd restarts
+// LastPruned() is called before Start (what the node does before converting): it loads the checkpoint, which
+// must be what the stopped Service had.
+func (r *replayer) restartAfterStop(failedB []int) bool {
+	lastB := r.lastSeen
+	if err := r.newService(); err != nil {
+		r.rep.Inconclusivef("NewService: %v", err)
+		r.aborted = true
+		return false
+	}
+	r.nRestart++
+	r.haveLast = false
+	if r.nRestart%2 == 1 {
+		lp, err := r.svc.LastPruned(tagged("drv"))
+		_, f2, _ := r.svc.VerifCheckpoint()
+		if err != nil || int(lp) != lastB || !eqInts(sortedU64(f2), failedB) {
+			r.rep.Violate(sigRestart, fmt.Sprintf("after a restart the checkpoint is (%d,%v,err=%v), before Stop it was (%d,%v)",
+				lp, sortedU64(f2), err, lastB, failedB), r.replayObj(nil))
+		}
+	}
+	r.lastSeen, r.haveLast = lastB, true // the first observation after Start must not be below
+	return true
+}
+
 func (r *replayer) run() {
 	b := r.b
 	in := b.Steps[0]
@@ -736,18 +906,31 @@ replay:
 		s := steps[i]
 		r.stepIdx = i
 		switch s.N {
-		case "CycleBegin":
+		case "CycleBegin", "CycleAbort":
 			// collect the model's cycle
-			j := i + 1
+			j := i
 			var retry, batchCalls []int
 			headAfter := map[int][]rec{} // number of Prune calls of this cycle after which the head grows
-			ended := false
-			for ; j < len(steps); j++ {
+			rs := readScript{retryFail: map[uint64]bool{}}
+			wantInjected := 0
+			ended, cut, stopMid := false, false, false // cut: the cycle ends on a read failure
+			nBatch := 0
+			if s.N == "CycleAbort" {
+				rs.failTail, rs.failLast = s.K == "tail", s.K == "last"
+				wantInjected, ended, cut = 1, true, true
+			}
+			for j = i + 1; !ended && j < len(steps); j++ {
 				x := steps[j]
 				switch x.N {
 				case "Retry":
 					retry = append(retry, x.H)
-				case "RetrySkip", "Batch":
+				case "RetrySkip":
+					if x.RF {
+						rs.retryFail[uint64(x.H)] = true
+						wantInjected++
+					}
+				case "Batch":
+					nBatch++
 				case "Prune":
 					batchCalls = append(batchCalls, x.H)
 				case "Upd":
@@ -756,11 +939,16 @@ replay:
 					}
 				case "CycleEnd":
 					ended = true
+				case "FindFail":
+					rs.failFind = nBatch + 1
+					wantInjected++
+					ended, cut = true, true
+				case "StopMidRetry":
+					ended, stopMid = true, true
 				case "Head":
 					// the head grows between two batches: after the last Prune call of the batch just finished
 					headAfter[len(retry)+len(batchCalls)] = append(headAfter[len(retry)+len(batchCalls)], x)
 				default:
-					// an environment step inside a cycle (head growth between batches) is not replayed here
 					r.driftf("unexpected model step %s inside a cycle", x.N)
 					ended = true
 					j--
@@ -773,33 +961,38 @@ replay:
 				// the behaviour was cut in the middle of a cycle: nothing to compare it with
 				break replay
 			}
-			// observed before the cycle: is the tail ahead of the checkpoint and unpruned?
-			if !pendingStart {
-				l0, f0 := r.observeCheckpoint(false, "before cycle")
-				t0 := int(r.st.TailHeight())
-				if t0 > l0 && !r.okPruned[t0] {
-					r.clampSkip[t0] = true
-				}
-				_ = f0
-			} else if p, ok := r.readPersisted(); ok { // before Start the checkpoint is what the datastore has
-				t0 := int(r.st.TailHeight())
-				if t0 > int(p.Last) && !r.okPruned[t0] {
-					r.clampSkip[t0] = true
-				}
-			}
+			// observed before the cycle: checkpoint, failed set; is the tail ahead of the checkpoint and unpruned?
+			l0 := -1
 			failedBefore := map[int]bool{}
 			if !pendingStart {
-				_, f0, _ := r.svc.VerifCheckpoint()
-				for _, f := range f0 {
-					failedBefore[int(f)] = true
-				}
-			} else if p, ok := r.readPersisted(); ok {
-				for f := range p.Failed {
-					failedBefore[int(f)] = true
-				}
+				var f0 []int
+				l0, f0 = r.observeCheckpoint(false, "before cycle")
+				failedBefore = setOf(f0)
+			} else if p, ok := r.readPersisted(); ok { // before Start the checkpoint is what the datastore has
+				l0 = int(p.Last)
+				failedBefore = setOf(sortedU(p.Failed))
 			}
+			t0 := int(r.st.TailHeight())
+			if l0 >= 0 && t0 > l0 && !r.okPruned[t0] {
+				r.clampSkip[t0] = true
+			}
+			rs.expectLast = l0 >= 0 && t0 < l0
+			r.st.setScript(rs)
+			stopErr := make(chan error, 1)
 			r.stub.mu.Lock()
 			r.stub.sinceHook = 0
+			r.stub.stopAt, r.stub.onStop = 0, nil
+			if stopMid {
+				svc := r.svc
+				r.stub.stopAt = len(retry) + 1
+				r.stub.onStop = func() {
+					go func() {
+						ctx, cancel := context.WithTimeout(tagged("drv"), 60*time.Second)
+						defer cancel()
+						stopErr <- svc.Stop(ctx)
+					}()
+				}
+			}
 			if len(headAfter) > 0 {
 				r.stub.afterCall = func(k int) {
 					for _, x := range headAfter[k] {
@@ -815,17 +1008,42 @@ replay:
 				r.stub.afterCall = nil
 			}
 			r.stub.mu.Unlock()
-			cs, fin := r.runCycle(pendingStart, len(retry)+len(batchCalls))
+			want := len(retry) + len(batchCalls)
+			if stopMid {
+				want++
+			}
+			cs, fin := r.runCycle(pendingStart, want)
 			r.stub.mu.Lock()
-			r.stub.afterCall = nil
+			r.stub.afterCall, r.stub.stopAt, r.stub.onStop = nil, 0, nil
 			r.stub.mu.Unlock()
+			injected := r.st.scriptInjected()
+			r.st.setScript(readScript{})
 			pendingStart = false
 			r.monitorCalls(cs)
 			r.rep.Count("prune_calls", int64(len(cs)))
 			if !fin {
 				return
 			}
+			if stopMid {
+				select {
+				case err := <-stopErr:
+					if err != nil {
+						r.rep.Inconclusivef("behaviour %s: Stop during the retry pass: %v", b.ID, err)
+						r.aborted = true
+						return
+					}
+				case <-time.After(60 * time.Second):
+					r.rep.Inconclusivef("behaviour %s: Stop during the retry pass did not return (was it ever called? calls %v)", b.ID, cs)
+					r.aborted = true
+					return
+				}
+				r.rep.Count("stops_during_retry", 1)
+			}
 			r.rep.Count("cycles", 1)
+			r.rep.Count("read_failures_injected", int64(injected))
+			if injected != wantInjected {
+				r.driftf("%d scripted header-store read failures were consumed by the cycle, model has %d (%+v)", injected, wantInjected, rs)
+			}
 			// conformance: retry phase as a set, batches as a sequence
 			got := make([]int, 0, len(cs))
 			for _, c := range cs {
@@ -834,29 +1052,58 @@ replay:
 					r.driftf("Prune(%d) call the model does not have", c.H)
 				}
 			}
-			if len(got) != len(retry)+len(batchCalls) {
+			switch {
+			case stopMid:
+				// one call in flight when the context is cancelled, on whichever failed height the map order gave
+				if len(cs) != 1 || !cs[0].Canceled || !failedBefore[int(cs[0].H)] {
+					r.driftf("stop during the retry pass: calls %v, model: one cancelled call on one of %v", cs, keys(failedBefore))
+				}
+			case len(got) != len(retry)+len(batchCalls):
 				r.driftf("cycle made Prune calls %v, model: retry %v then %v", got, retry, batchCalls)
-			} else {
-				if !eqInts(sortedI(got[:len(retry)]), sortedI(retry)) || !eqInts(got[len(retry):], batchCalls) {
-					r.driftf("cycle made Prune calls %v, model: retry %v then %v", got, retry, batchCalls)
+			case !eqInts(sortedI(got[:len(retry)]), sortedI(retry)) || !eqInts(got[len(retry):], batchCalls):
+				r.driftf("cycle made Prune calls %v, model: retry %v then %v", got, retry, batchCalls)
+			}
+			endRec := s
+			if s.N == "CycleBegin" {
+				endRec = steps[j]
+			}
+			if stopMid {
+				// Stop has persisted: the model's snapshot after StopMidRetry is (memory = persisted = before)
+				last, failed, _ := r.svc.VerifCheckpoint()
+				p, ok := r.readPersisted()
+				if !ok || p.Last != last || !eqInts(sortedU(p.Failed), sortedU64(failed)) {
+					r.rep.Violate(sigRestart, fmt.Sprintf("Stop persisted (%d,%v,found=%v) while the checkpoint in memory was (%d,%v)",
+						p.Last, sortedU(p.Failed), ok, last, sortedU64(failed)), r.replayObj(nil))
 				}
 			}
-			r.compareState(steps[j], fmt.Sprintf("cycle ending at model step %d", j))
+			r.compareState(endRec, fmt.Sprintf("cycle ending at model step %d (%s)", j, endRec.N))
 			// monitors on the observed cycle
 			tailNow, headNow := int(r.st.TailHeight()), int(r.st.Height())
 			called := map[int]bool{}
 			for _, c := range cs {
 				called[int(c.H)] = true
 			}
-			_, _ = tailNow, headNow
-			for f := range failedBefore { // conformance: the code (like the model) retries every failed height in every cycle
-				if f >= tailNow && f <= headNow && !called[f] {
-					r.driftf("height %d was in the failed set before the cycle and the cycle did not retry it", f)
+			if !cut && !stopMid && wantInjected == 0 {
+				for f := range failedBefore { // conformance: the code (like the model) retries every failed height in every cycle
+					if f >= tailNow && f <= headNow && !called[f] {
+						r.driftf("height %d was in the failed set before the cycle and the cycle did not retry it", f)
+					}
 				}
 			}
 			_, failedNow := r.observeCheckpoint(false, "after cycle")
-			r.monitorAllOld(failedNow, called)
-			i = j
+			r.monitorFailedKept(failedBefore, failedNow, cs, 0, "a cycle ("+endRec.N+")")
+			if !cut && !stopMid {
+				r.monitorAllOld(failedNow, called)
+			}
+			if stopMid {
+				if !r.restartAfterStop(failedNow) {
+					return
+				}
+				pendingStart = true
+			}
+			if s.N == "CycleBegin" {
+				i = j
+			}
 		case "Head":
 			ht := in.Time[s.H-1]
 			if s.T != nil {
@@ -872,6 +1119,8 @@ replay:
 			r.odDone = make(chan error, 1)
 			h := r.st.TailHeight()
 			from := len(r.stub.snapshot(0))
+			_, f0 := r.observeCheckpoint(false, "before ODBegin")
+			fBefore := setOf(f0)
 			go func(d chan error) { d <- r.st.deleteOne(tagged("od"), h) }(r.odDone)
 			select {
 			case <-at:
@@ -895,12 +1144,16 @@ replay:
 			r.monitorCalls(r.stub.snapshot(from))
 			r.rep.Count("header_deletions", 1)
 			r.compareState(s, "ODBegin")
+			_, fNow := r.observeCheckpoint(false, "ODBegin")
+			r.monitorFailedKept(fBefore, fNow, nil, int(h), "the first part of a header deletion")
 		case "ODEnd":
 			if r.odDone == nil {
 				r.driftf("model ends a header deletion that is not in flight")
 				continue
 			}
 			from := len(r.stub.snapshot(0))
+			_, f0 := r.observeCheckpoint(false, "before ODEnd")
+			r.st.setScript(readScript{odFail: s.RF})
 			r.st.mu.Lock()
 			g := r.st.odGate
 			r.st.odGate = nil
@@ -920,10 +1173,18 @@ replay:
 			r.odPending = 0
 			cs := r.stub.snapshot(from)
 			r.monitorCalls(cs)
-			if len(cs) != 1 || int(cs[0].H) != s.H {
+			if s.RF {
+				if inj := r.st.scriptInjected(); inj != 1 || len(cs) != 0 {
+					r.driftf("header deletion with a failing header read: %d failures consumed, calls %v", inj, cs)
+				}
+				r.rep.Count("read_failures_injected", 1)
+			} else if len(cs) != 1 || int(cs[0].H) != s.H {
 				r.driftf("header deletion made calls %v, model Prune(%d)", cs, s.H)
 			}
+			r.st.setScript(readScript{})
 			r.compareState(s, "ODEnd")
+			_, fNow := r.observeCheckpoint(false, "ODEnd")
+			r.monitorFailedKept(setOf(f0), fNow, cs, 0, "the second part of a header deletion")
 		case "Restart":
 			lastB, failedB := r.observeCheckpoint(false, "before Stop")
 			ctx, cancel := context.WithTimeout(tagged("drv"), 30*time.Second)
@@ -939,23 +1200,8 @@ replay:
 				r.rep.Violate(sigRestart, fmt.Sprintf("Stop persisted (%d,%v,found=%v) while the checkpoint in memory was (%d,%v)",
 					p.Last, sortedU(p.Failed), ok, lastB, failedB), r.replayObj(nil))
 			}
-			if err := r.newService(); err != nil {
-				r.rep.Inconclusivef("NewService: %v", err)
-				r.aborted = true
+			if !r.restartAfterStop(failedB) {
 				return
-			}
-			r.nRestart++
-			r.haveLast = false
-			if r.nRestart%2 == 1 { // what the node does before converting: LastPruned() loads the checkpoint
-				lp, err := r.svc.LastPruned(tagged("drv"))
-				_, f2, _ := r.svc.VerifCheckpoint()
-				if err != nil || int(lp) != lastB || !eqInts(sortedU64(f2), failedB) {
-					r.rep.Violate(sigRestart, fmt.Sprintf("after a restart the checkpoint is (%d,%v,err=%v), before Stop it was (%d,%v)",
-						lp, sortedU64(f2), err, lastB, failedB), r.replayObj(nil))
-				}
-				r.lastSeen, r.haveLast = lastB, true
-			} else {
-				r.lastSeen, r.haveLast = lastB, true // the first observation after Start must not be below
 			}
 			pendingStart = true
 			r.rep.Count("restarts", 1)
@@ -1037,5 +1283,6 @@ func TestDriver(t *testing.T) {
 	}
 	if os.Getenv("VERIF_STORE_EFFECT") != "0" {
 		storeEffect(t, rep)
+		lightPrune(t, rep)
 	}
 }
